@@ -327,6 +327,8 @@ def _run_model(case, ctx):
         # (a fit error of exactly zero - a perfect fit - is a legitimate value, as is a range that starts at zero)
         model = GM.make_model(name, P, rmse=0.0 if case["seed"] % 5 == 0 else round(r.uniform(0, 0.2), 6), temperature=T, **rng)
         model.params.update(P)  # (as a fit leaves them: whatever the constructor made of its arguments)
+        if case["seed"] % 5 == 0:
+            model.rmse = 0.0
         iso = pygaps.ModelIsotherm(model=model, material=copy.deepcopy(mat), adsorbate=ads_name, temperature=Tst, **units, **copy.deepcopy(meta))
         how = "hand-built"
     spec = {"model": name, "params": dict(iso.model.params), "units": dict(iso.units), "meta": meta, "how": how}
